@@ -10,20 +10,19 @@ theorem inv_nstart {s s' : State} {nid t : Nat} {e : Bool} {v : Nat} (h : Inv s)
   · try dsimp only at hs
     split at hs <;> simp at hs <;> subst hs <;> inv_close0
 
-theorem inv_nrun {s s' : State} {nid : Nat} (h : Inv s) (hs : stepNrun s nid = some s') : Inv s' := by
+theorem inv_nrun {cfg : Cfg} {s s' : State} {nid : Nat} (hg : cfg.std = true) (h : Inv s)
+    (hs : stepNrun cfg s nid = some s') : Inv s' := by
   unfold stepNrun at hs
+  std_norm hg at hs
+  simp only [casStep] at hs
   split at hs
   · simp at hs
   · split at hs
-    · simp at hs; subst hs; inv_close0
-    · split at hs
-      · simp at hs
-      · split at hs <;> simp at hs <;> subst hs <;> inv_close0
-    · split at hs
-      · simp at hs
-      · split at hs <;> simp at hs <;> subst hs <;> inv_close0
-    · simp at hs
-
+    all_goals (try (split at hs))
+    all_goals (try (split at hs))
+    all_goals (try (simp at hs))
+    all_goals (try subst hs)
+    all_goals inv_close0
 theorem inv_nwrite {s s' : State} {nid : Nat} {o : Outcome} (h : Inv s)
     (hs : stepNwrite s nid o = some s') : Inv s' := by
   unfold stepNwrite at hs
